@@ -160,11 +160,21 @@ def run_case(ctx, rep, p, q, vars1, vars2, model, kinds=("?", "?"), start=None, 
     else:
         rep.tie("the fields combine wrote (names / source positions) differ from the Lean merge rule", case,
                 {"real": Q["fields"], "model": mn})
+    diff = writers.level_headers_match_rewrite(d1, out, Q, i1, leanio, inp2=d2, kept2=i2)
+    if diff:
+        rep.tie(f"the level headers of levels {diff} differ from the Lean line rewriter's (C06.level_header_rows_assembled)", case)
+    else:
+        rep.agree(); rep.count("level-headers-are-the-rewriter's")
     cert = tastelib.wf_certificate(out, leanio)
     if cert is None:
         rep.agree(); rep.count("wf-certificate-passes")
     elif cert != "names":
         rep.tie(f"combine's output does not pass the Lean well-formedness certificate ({cert})", case)
+    why = writers.output_header_matches_rewrite(d1, out, None, Q["fields"], "combine", leanio, rep)
+    if why:
+        rep.tie(f"header combine derives from its input: {why} (C06.output_header_keeps_mesh / output_header_read_back)", case)
+    else:
+        rep.agree(); rep.count("output-header-is-the-writer-model's")
     why = writers.global_header_theorem_applies(out, leanio)
     if why:
         rep.tie(f"global header of combine's output: {why} (whose parse-after-render law is proved)", case)
@@ -222,6 +232,9 @@ def run(ctx, rep, model=True):
                  ("scatter", "same"), ("perm", "perm"), ("mono", "files")]
     for i in range(n):
         p, q, kinds = pair_specs(ctx.rng, kinds=lay_pairs[i % len(lay_pairs)])
+        if i % 3 == 1:
+            p["subcycle"] = q["subcycle"] = True; p["step"] = q["step"] = 7       # a sub-cycling run: steps 7, 14, 28 per level
+            rep.count("per-level-steps-differ")
         forms = selection_forms(ctx.rng, dedup_names(p["fields"]), dedup_names(q["fields"]))
         for j, (v1, v2) in enumerate(forms):
             if ctx.quick and j not in (0, 1 + i % 7):
